@@ -1,6 +1,6 @@
 /-
-The three recorded deviation classes of the obfuscator's scoping (known findings KF-07a/b/c) as decidable, purely
-structural predicates on the program tree (definitions only, no Mathlib; the driver evaluates them).
+The three recorded deviation classes of the obfuscator's scoping (known findings KF-07a/b/c) as decidable
+predicates on the program tree (and `kfE`, the class of the repaired `arguments` defect, kept for regression tests) (definitions only, no Mathlib; the driver evaluates them).
 
   kfA   a `var` / `for (var …)` / function declaration of the catch parameter's name inside the block of that catch
         clause (not inside a nested function): the obfuscator takes it for the catch parameter, ES5 hoists it to the function
@@ -9,6 +9,11 @@ structural predicates on the program tree (definitions only, no Mathlib; the dri
         named `g`: the obfuscator declares `g` in the ENCLOSING scope and renames those occurrences with it
   kfC   a `break L` / `continue L` whose label `L` is defined under a different number of enclosing catch clauses with parameter
         `L` than the jump: labels are renamed like variable references, so only one of the two is renamed
+  kfE   (repaired in /repo f665fbf, NOT part of `excluded`)  some function uses its implicit `arguments` object (ES5 §10.6: an Identifier `arguments` in a function that does not
+        declare that name) while the program declares a variable / parameter / function / catch parameter / function-expression
+        name spelled `arguments` that the obfuscator renames (inside a function or catch clause, or — with obfuscate_globals — at
+        top level): `Scope.resolve` goes by name through the parent chain and knows nothing of the implicit binding, so an inner
+        `arguments` is renamed with an outer declaration
 -/
 import CalmVerif.Proofs.ObfRename
 namespace CalmVerif.Obf
@@ -156,7 +161,15 @@ end
 
 def kfC (program : Val) : Bool := kfCIn [] [] program
 
-/-- the program falls into one of the three recorded deviation classes -/
+/-! ### KF-07e -/
+
+def kfE (og : Bool) (program : Val) : Bool :=
+  let bs := (Spec.Scope.resolveProgram program).flatMap (·.binders)
+  bs.any (fun b => b.kind == .args) &&
+    bs.any (fun b => b.name == "arguments" &&
+      (b.kind == .var || b.kind == .catch || b.kind == .self || (og && b.kind == .global)))
+
+/-- the program falls into one of the recorded deviation classes -/
 def excluded (og : Bool) (program : Val) : Bool := kfA program || kfB og program || kfC program
 
 end CalmVerif.Obf
